@@ -29,7 +29,10 @@ NAMES = ['prod.app.w1.req', 'prod.app.w2.req', 'dev.app.w1.req', 'prod.app.w1.la
          'sys.cpu.0', 'sys.cpu.1', 'sys.mem.free', 'sys.cpu', 'sys.cpu.0.u',
          'x.a', 'x.a.b.c', 'x', 'x.', 'pfxsfx.k', 'pfx-mid-sfx.k', 'pfx.sfx.k', 'apfxsfx.k',
          'prod.svc.a', 'prod.svc.a.b', 'prod.svc', 'srv-h1.load', 'srv-.load', 'srv-h1.load.x',
-         'a.b.c', 'a.b.c.d', 'za.b.c', 'self.agg', 'zzz', 'prod.app.w1.req ', 'prod.app..req']
+         'a.b.c', 'a.b.c.d', 'za.b.c', 'self.agg', 'zzz', 'prod.app.w1.req ', 'prod.app..req',
+         # one segment too many exactly where a <field> or * sits
+         'prod.eu.app.w1.req', 'prod.app.w1.x.req', 'sys.cpu.x.0', 'sys.a.b.c', 'web.1.2.req', 'srv-h1.x.load',
+         'prod.eu.svc.a', 'pfx.mid.sfx.k']
 NAMES = [n for n in NAMES if ' ' not in n]
 MATCHING = {
   '<env>.app.*.req': ['prod.app.w1.req', 'prod.app.w2.req', 'dev.app.w1.req', 'prod.app.all.req'],
